@@ -1,0 +1,9 @@
+//go:build verif
+
+package op
+
+import "github.com/rs/cors"
+
+// VerifDefaultCORSOptions exposes the unexported package default to the
+// verification harness (property C20), which snapshots it around operations.
+func VerifDefaultCORSOptions() *cors.Options { return &defaultCORSOptions }
